@@ -3,13 +3,14 @@
 // C15 — cloned buffers and background tasks: same bytes for all, no deadlock, no panic.
 //
 // vsched explorations of the real pkg/blobstore/buffer code:
-//   clone2/*  : CloneStream into 2 consumers, every pair of consumer programs x source
-//               chunkings x error positions x base buffer kind, all schedules within the bound
-//   clone3/*  : 3 consumers (clone of a clone)
-//   task/*    : the refresh pattern of the local store: b1,b2 := b.CloneStream();
-//               b1.WithTask(task consuming b2) consumed by every method, task ok / failing
-//   prog/*    : compositions (depth <= 3) of CloneStream / CloneCopy / WithTask / WithErrorHandler
-//               over every buffer kind, every Buffer method on the result
+//
+//	clone2/*  : CloneStream into 2 consumers, every pair of consumer programs x source
+//	            chunkings x error positions x base buffer kind, all schedules within the bound
+//	clone3/*  : 3 consumers (clone of a clone)
+//	task/*    : the refresh pattern of the local store: b1,b2 := b.CloneStream();
+//	            b1.WithTask(task consuming b2) consumed by every method, task ok / failing
+//	prog/*    : compositions (depth <= 3) of CloneStream / CloneCopy / WithTask / WithErrorHandler
+//	            over every buffer kind, every Buffer method on the result
 package main
 
 import (
@@ -96,6 +97,11 @@ var programs = []program{
 		return p[:n], err
 	}},
 	{"Discard", false, nil, func(b buffer.Buffer) ([]byte, error) { b.Discard(); return nil, nil }},
+	// the consumer's size limit is smaller than the object: it gets an error without reading, and must still let go
+	{"ToByteSliceTooSmall", false, nil, func(b buffer.Buffer) ([]byte, error) {
+		b.ToByteSlice(2) // whether the limit is enforced is not C15's business; what it pins or blocks is
+		return nil, nil
+	}},
 	{"ChunkClose0", false, nil, func(b buffer.Buffer) ([]byte, error) { b.ToChunkReader(0, 2).Close(); return nil, nil }},
 	{"ChunkClose1", false, nil, func(b buffer.Buffer) ([]byte, error) {
 		r := b.ToChunkReader(0, 2)
@@ -411,7 +417,7 @@ func decorate(b buffer.Buffer, d string, st *progState) buffer.Buffer {
 	}
 }
 
-var methods = []string{"GetSizeBytes", "ToByteSlice", "ChunkAll", "Reader", "IntoWriter", "ReadAt1", "ToProto", "Discard", "CloneStreamBoth", "CloneCopyBoth", "WithTaskThenSlice", "ChunkClose1"}
+var methods = []string{"GetSizeBytes", "ToByteSliceTooSmall", "CloneCopyTooSmall", "ToByteSlice", "ChunkAll", "Reader", "IntoWriter", "ReadAt1", "ToProto", "Discard", "CloneStreamBoth", "CloneCopyBoth", "WithTaskThenSlice", "ChunkClose1"}
 
 func progScenario(kind string, decos []string, method string) func() {
 	return func() {
@@ -441,6 +447,14 @@ func progScenario(kind string, decos []string, method string) func() {
 				vsched.Fail("prog:GetSizeBytes", "GetSizeBytes = %d, %v; want %d (kind %s, decorators %v)", sz, serr, len(content), kind, decos)
 			}
 			b.Discard()
+		case "ToByteSliceTooSmall":
+			wholeObject = false
+			b.ToByteSlice(2)
+		case "CloneCopyTooSmall":
+			wholeObject = false
+			l, r2 := b.CloneCopy(2)
+			l.ToByteSlice(100)
+			r2.ToByteSlice(100)
 		case "ToByteSlice":
 			data, err = b.ToByteSlice(100)
 		case "ChunkAll":
@@ -464,7 +478,7 @@ func progScenario(kind string, decos []string, method string) func() {
 			b.Discard()
 		case "ChunkClose1":
 			wholeObject = false
-			programs[8].run(b)
+			programs[9].run(b)
 		case "CloneStreamBoth":
 			l, r2 := b.CloneStream()
 			wg.Add(1)
